@@ -164,3 +164,52 @@ mu!(c07_mu_s2d1_collapse, S2D1L, 4, [T_, T_], [F_, T_], [T_, F_], true);
 mu!(c07_mu_s2d0_both, S2D0, 4, [T_, T_], [T_, T_], [T_, T_], false);
 mu!(c07_mu_s3a_delete_left, S3A, 4, [T_, T_, T_], [F_, T_, T_], [T_, F_, F_], true);
 mu!(c07_mu_s3b_collapse_left, S3B, 4, [T_, T_, T_], [F_, F_, T_], [T_, T_, F_], true);
+
+/// (a)+(b) for the aggregation of exactly ONE path proof (the cheapest non-trivial multi-proof):
+/// written without intermediate Vecs of verified proofs.
+pub fn multi_single<U: Tree>(window: usize, mask: &[bool], which: usize) {
+    let mask = mk(mask);
+    let p = pairs::<U>(window);
+    let root = U::root::<SymHasher>(&p.keys, &p.vals, &mask);
+    let mut w = Walk::new();
+    U::walk::<SymHasher, _>(&p.keys, &p.vals, &mask, &mut w, &mut |t: &Term| {
+        if t.index != which {
+            return;
+        }
+        let proof = proof_of(t, &p.keys, &p.vals);
+        let lk = lookup_key(t, &p.keys);
+        let single = proof.verify::<SymHasher>(lk.view_bits::<Msb0>(), root);
+        assert!(single.is_ok());
+        let single = single.unwrap();
+        let mp = MultiProof::from_path_proofs(vec![proof]);
+        let res = verify_multi_proof::<SymHasher>(&mp, root);
+        assert!(res.is_ok(), "multi-proof of one honest path proof rejected");
+        let v = res.unwrap();
+        let q = window_key(window);
+        let ql = LeafData {
+            key_path: q,
+            value_hash: kani::any(),
+        };
+        assert!(v.confirm_value(&ql).ok() == single.confirm_value(&ql).ok());
+        assert!(v.confirm_nonexistence(&q).ok() == single.confirm_nonexistence(&q).ok());
+        assert!(v.find_index_for(&q).is_ok() == single.confirm_nonexistence(&q).is_ok());
+        kani::cover!(single.confirm_nonexistence(&q).is_ok(), "in-scope query");
+        core::mem::forget(v);
+        core::mem::forget(mp);
+        core::mem::forget(single);
+    });
+}
+
+macro_rules! ms {
+    ($name:ident, $u:ty, $w:expr, $mask:expr, $which:expr) => {
+        #[kani::proof]
+        pub fn $name() {
+            multi_single::<$u>($w, &$mask, $which)
+        }
+    };
+}
+ms!(c07_ms_e, S0, 4, [], 0);
+ms!(c07_ms_s1, S1, 4, [T_], 0);
+ms!(c07_ms_s2d0_l, S2D0, 4, [T_, T_], 0);
+ms!(c07_ms_s2d1_01, S2D1L, 4, [T_, T_], 1);
+ms!(c07_ms_s2d1_1, S2D1L, 4, [T_, T_], 2);
